@@ -672,13 +672,19 @@ fn convert_rpx_in_block(
                     Token::CurlyBracketBlock
                     | Token::SquareBracketBlock
                     | Token::ParenthesisBlock => {
+                        // (parentheses inside `calc()` are still inside `calc()`)
+                        let config = if in_calc {
+                            Some(ConvertOptions { in_calc: true })
+                        } else {
+                            None
+                        };
                         let close = ss.append_nested_block(next.clone(), input);
-                        convert_rpx_in_block(input, ss, None);
+                        convert_rpx_in_block(input, ss, config);
                         ss.append_nested_block_close(close, input);
                     }
                     Token::Function(func) => {
                         let func: &str = func;
-                        let config = if func == "calc" {
+                        let config = if in_calc || func.eq_ignore_ascii_case("calc") {
                             Some(ConvertOptions { in_calc: true })
                         } else {
                             None
